@@ -7,7 +7,7 @@ import random
 import progprop
 import progstream as P
 from gen import mutants
-from props import c01, c06, c11, c12, c13
+from props import c07, c01, c06, c11, c12, c13
 
 THM_MODULES = ["SslModel.Thm.C02"]
 TRANSLATE_PARTS = ["scalar", "errors"]
@@ -55,7 +55,7 @@ def run(res, tier, seed, broken_model):
     rnd = random.Random(seed + 7)
     feats = dict(mark=0.1, weights=dict(useriter=16, fndecl=14, capture=8))
     recs, good = progprop.stream(res, tier, seed + 7, broken_model, 700, 25000, features=feats,
-                                 templates=c06.templates()[:40] + c12.templates()[::6], label="programs", depth=3)
+                                 templates=c06.templates() + c12.templates()[::3] + c11.repeated_templates()[::4] + c07.templates()[::5], label="programs", depth=3)
     n = 200 if tier == "quick" else 6000
     pipes = [c11.Pipe(rnd).build() for _ in range(n)] + [c13.history(rnd, rnd.randint(3, 20)) for _ in range(n // 2)]
     precs = P.run_programs(pipes, broken_model=broken_model)
